@@ -6,7 +6,7 @@ namespace mc {
 
 enum AlphaBits : unsigned {
     A_ADDV = 1, A_ADDE = 2, A_ADDF = 4, A_ADDC = 8, A_SET = 16, A_DEL = 32, A_SWAP = 64, A_GC = 128, A_CLEAR = 256,
-    A_MODE = 512, A_BU = 1024, A_PROP = 2048, A_ADDFHE = 4096, A_ADDCV = 8192,
+    A_MODE = 512, A_BU = 1024, A_PROP = 2048, A_ADDFHE = 4096, A_ADDCV = 8192, A_SWAPFEW = 16384,
     A_FULL = A_ADDV | A_ADDE | A_ADDF | A_ADDC | A_SET | A_DEL | A_SWAP | A_GC | A_CLEAR | A_MODE | A_BU | A_ADDFHE,
     A_RESTRICTED = A_DEL | A_SWAP | A_GC | A_MODE | A_BU,
     A_DELETION = A_ADDV | A_ADDE | A_ADDF | A_ADDC | A_DEL | A_GC | A_CLEAR | A_MODE,
@@ -183,6 +183,10 @@ inline std::vector<Op> menu(const Sys &s, const Bf &bf, unsigned alpha, const Ca
         for (int a = 0; a < bf.nf; ++a) for (int b = a; b < bf.nf; ++b) r.push_back(Op(SWAP_F, {a, b}));
         for (int a = 0; a < bf.ne; ++a) for (int b = a; b < bf.ne; ++b) r.push_back(Op(SWAP_E, {a, b}));
         for (int a = 0; a < bf.nv; ++a) for (int b = a; b < bf.nv; ++b) r.push_back(Op(SWAP_V, {a, b}));
+    }
+    if ((alpha & A_SWAPFEW) && !(alpha & A_SWAP)) {  // neighbouring slots and first<->last only (C17 covers all pairs)
+        auto few = [&](OpK k, int n) { for (int a = 0; a + 1 < n; ++a) r.push_back(Op(k, {a, a + 1})); if (n > 2) r.push_back(Op(k, {0, n - 1})); };
+        few(SWAP_C, bf.nc); few(SWAP_F, bf.nf); few(SWAP_E, bf.ne); few(SWAP_V, bf.nv);
     }
     if (alpha & A_GC) r.push_back(Op(GC, {}));
     if (alpha & A_CLEAR) { r.push_back(Op(CLEAR, {1})); r.push_back(Op(CLEAR, {0})); }
